@@ -5,14 +5,12 @@ A="$1"; B="$2"; shift 2
 PROPS="${*:-C02 C03 C08 C09 C10 C12 C13 C14 C15 C16 C18}"
 cd "$(dirname "$0")/.." || exit 2
 TMP="$(mktemp -d /dev/shm/dsim-seeds-XXXXXX)"
-cp evidence/*.json "$TMP"/
 bad=0
 for s in $(seq "$A" "$B"); do
   for p in $PROPS; do
-    DSIM_NO_FRESH=1 ./check "$p" --tier quick --seed "$s" > "$TMP/out.txt" 2>&1; rc=$?
+    DSIM_NO_FRESH=1 DSIM_EVIDENCE_DIR="$TMP/ev" ./check "$p" --tier quick --seed "$s" > "$TMP/out.txt" 2>&1; rc=$?
     if [ $rc -ne 0 ]; then bad=1; echo "seed=$s $p exit=$rc"; grep -E "signature|message|VIOLATION|HARNESS" "$TMP/out.txt" | cut -c1-400; cp replays/$p-seed$s-*.json "$TMP"/ 2>/dev/null; else echo "seed=$s $p ok"; fi
   done
 done
-cp "$TMP"/C??.json evidence/
 echo "kept: $TMP"
 exit $bad
